@@ -5,6 +5,15 @@ V = os.path.dirname(os.path.dirname(os.path.abspath(__file__)))
 
 CHECKS = {
  # id: (level, technique, level text, level note)
+ "C01": ("exploration", "reference-model monitor over recorded query histories on live GameData handles + order-independence invariant (fresh-handle replay in another order); unique payload per stored location",
+         "Each exists/find_offset/extract return on randomly generated installations is compared with an independent index model defined on hashes; every stored location carries a unique id so a wrong dat/offset/chunk is visible; histories are replayed in another order on a fresh handle to expose cache-dependent answers.",
+         "SqPack index/dat layout as documented; leniency for repositories that are named but not installed"),
+ "C02": ("exploration", "equality monitor against the independent packer's input + residual-heap and allocation monitors; ASan/LSan run of the same workload",
+         "Entries of all three kinds packed by an independent Python packer (Python zlib streams of every block type, arbitrary splits) are read back through the real library and compared byte for byte / section by section; the allocator monitor checks that nothing stays allocated after each call and ASan+LSan watch the unsafe slice cast and the inflate path.",
+         "Python zlib; entry layouts as documented"),
+ "C05": ("exploration", "reference-model monitor cell by cell against values planted by an independent EXH/EXD builder; direct buffers and archive route",
+         "Every cell of every stored (sub-)row is compared with the planted value for all 19 column types incl. shared packed-bool bytes, NaN payloads, extreme integers, long strings and large sub-row tables; names/pages/languages are resolved through a generated archive as well.",
+         "EXH/EXD layout as in Lumina; single-sub-row sheets not generated"),
  "C08": ("exploration", "model-equality monitor after every call of parse/write/set_value/has_* histories on live handles",
          "The Python model (list of categories/entries) is compared with the library's observable state after every call of random edit histories, and canonical text is compared byte for byte in both directions; exploration over random grammars incl. empty categories, duplicate keys and multi-byte text.",
          "canonical grammar as stated in the property"),
